@@ -1049,7 +1049,7 @@ def sqli_canary(sc, d, vh):
     variants = [
         mutate(lambda e: e["ev"] == "tok" and e["ntok"] == 3, lambda e: e["t"].__setitem__("pos", e["t"]["pos"] + 1)),
         mutate(lambda e: e["ev"] == "tok" and e["ntok"] == 2, lambda e: e["t"].__setitem__("cat", 110 if e["t"]["cat"] != 110 else 49)),
-        mutate(lambda e: e["ev"] == "api.fold" and e["fpos"] >= 2, lambda e: e.__setitem__("left", e["left"] + 1)),
+        mutate(lambda e: e["ev"] == "pass" and len(e["r"]["toks"]) >= 2, lambda e: e["r"]["toks"][1].__setitem__("cat", 63)),
         mutate(lambda e: e["ev"] == "api.passend", lambda e: e.__setitem__("fp", e["fp"][:-1])),
         mutate(lambda e: e["ev"] == "api.end", lambda e: e.__setitem__("sqli", not e["sqli"])),
     ]
@@ -1113,6 +1113,9 @@ def c06(tier, sc):
              "spec": rj["spec"], "impl": rj["impl"]})
     if not sqli_canary(sc, d, vh):
         rep.notes.append("canary base trace itself rejected (see violations)")
+    if vlib.DIAGNOSTICS:
+        rep.notes.append("internal divergence (not part of the statement, not a violation): %d fold iterations whose loop cursors differ "
+                         "from the specification's, e.g. %s" % (len(vlib.DIAGNOSTICS), json.dumps(vlib.DIAGNOSTICS[0])[:400]))
     for b in beh[2000:2002]:
         rep.sample({"in": show(b["in"]), "level": b["_level"], "flags": b.get("flags", 0)})
     for x in inputs[100:103]:
@@ -1811,17 +1814,26 @@ def c09(tier, sc):
         line = rj["line"] - 1
         sus_f.append(meas[line]["fam"])
     if sus_f:
-        again = [time_families(sc, vh, sus_f, n * 2, 4, 5) for _ in range(3)]
+        # (families already over a second at n are re-measured at n, the others at 2n)
+        slow_idx = [j for j, rj in enumerate(rejects) if rj["impl"].get("skipped")]
+        again = []
+        for _ in range(3):
+            r_fast = time_families(sc, vh, [f for j, f in enumerate(sus_f) if j not in slow_idx], n * 2, 4, 5) if len(slow_idx) < len(sus_f) else []
+            r_slow = time_families(sc, vh, [f for j, f in enumerate(sus_f) if j in slow_idx], n, 4, 1) if slow_idx else []
+            it_f, it_s = iter(r_fast), iter(r_slow)
+            again.append([next(it_s) if j in slow_idx else next(it_f) for j in range(len(sus_f))])
         for j, f in enumerate(sus_f):
             ms = [a[j] for a in again]
 
             def nonlinear(m):
-                return (m["ns"] >= 2000000 and m["ns2"] > 10 * m["ns"]) or m["ns2"] > 2000 * m["n2"]
+                return m.get("skipped") or m["ns"] > 2000 * m["n"] or (m["ns"] >= 2000000 and m["ns2"] > 10 * m["ns"]) or m["ns2"] > 2000 * m["n2"]
             if all(nonlinear(m) for m in ms):
                 confirmed += 1
                 m = ms[0]
-                rep.violation("%s on %r + %r repeated: %d bytes take %.1f ms, %d bytes take %.1f ms (x%.1f for x4 input)" % (
-                    f["api"], show(f["pre"]), show(f["rep"]), m["n"], m["ns"] / 1e6, m["n2"], m["ns2"] / 1e6, m["ns2"] / max(1, m["ns"])),
+                rep.violation("%s on %r + %r repeated: %d bytes take %.1f ms%s" % (
+                    f["api"], show(f["pre"]), show(f["rep"]), m["n"], m["ns"] / 1e6,
+                    " (%.1f us/byte; larger size not measured)" % (m["ns"] / 1e3 / m["n"]) if m.get("skipped") else
+                    ", %d bytes take %.1f ms (x%.1f for x4 input)" % (m["n2"], m["ns2"] / 1e6, m["ns2"] / max(1, m["ns"]))),
                     {"kind": "time", "api": f["api"], "pre": f["pre"], "rep": f["rep"], "tail": f["tail"], "n": m["n"], "factor": 4})
     slow = sorted(meas, key=lambda m: -m["ns2"])[:5]
     rep.part("timing", families=len(fams), n=n, factor=4, suspected=len(rejects), confirmed=confirmed,
